@@ -4,6 +4,19 @@ import json, os, subprocess
 ROOT = os.path.dirname(os.path.abspath(__file__))
 src = json.load(open(os.path.join(ROOT, "manifest_src.json")))
 checks = json.load(open(os.path.join(ROOT, "checks.json")))
+for dn, target in (("checks.d", checks["properties"]), ("manifest.d", src["checks"])):
+    d = os.path.join(ROOT, dn)
+    if os.path.isdir(d):
+        for fn in sorted(os.listdir(d)):
+            if fn.endswith(".json"):
+                target.update(json.load(open(os.path.join(d, fn))))
+engines = {e["name"]: e for e in src["engines"]}
+for pid, c in src["checks"].items():
+    for e in c.get("engines", []):
+        engines.setdefault(e["name"], e)
+        sp = engines[e["name"]].setdefault("serves_properties", [])
+        if pid not in sp: sp.append(pid)
+src["engines"] = list(engines.values())
 props = [json.loads(l) for l in open(os.path.join(ROOT, "properties.jsonl"))]
 m = {
     "version": 1,
